@@ -73,6 +73,25 @@ CLAIMED = {
              "on real matchings every run.",
         note="truth of the EOS inequalities and monotonicity of T+-(vw) below fastestDeflag are physics of the sampled EOS (monitored, not proved).",
         technique="Lean 4 proof over regenerated model + translator validation + real-run monitor", ref="4/C06"),
+    "C15": dict(
+        text="Lean 4 theorems (Props.C15, 31 theorems): on an EOS of template form the closed forms of the template solver satisfy the "
+             "equations of the GENERAL solver -- __init__ quantities, boundary constants (tmplBoundaries = hydroBoundaries), findTm = "
+             "energy-flux conservation, getVp quadratic <=> alpha relation <=> momentum-flux conservation, deflagration step conserves "
+             "both fluxes up to an explicit 1e-100 regulator defect, detonation root solves tmFromvpsq and equals matchDetonPost, the "
+             "closed-form vJ is the general Chapman-Jouguet point, the two fluid ODEs and kappa integrands coincide. Both real solvers are "
+             "run over the parameter box every run and compared (vJ, vMin, matching, c1/c2, LTE velocity, kappa).",
+        note="equality of numerical roots is a tolerance statement (2e-4; kappa 3e-3); vMin and LTE velocity are root searches (oracles). "
+             "Defect found by the proof effort (np.sign(0) in wFromAlpha, bag EOS) fixed in /repo 108cf41.",
+        technique="Lean 4 proof over regenerated model + translator validation + two-solver differential monitor", ref="4/C15"),
+    "C03": dict(
+        text="Lean 4 theorems (Props.C03, 15 theorems): shockDE's components are the self-similar flow equations written in v (T-form "
+             "consistent with the enthalpy form for any EOS); TiiShock = 0 <=> energy-flux continuity across the front with plasma at rest "
+             "ahead; front event <=> mu*xi = cs^2; for constant sound speed these imply momentum-flux continuity; the template shooting "
+             "residual is equivalent to the same two conditions; detonation passes vw, Tn through; kappa integrand = xi^2 w gamma^2 v^2. "
+             "An independent integrator in the similarity variable (harness-owned) re-derives Tn and kappa from every real matching.",
+        note="the ODE solution is an oracle: partial on integration accuracy (Tn 2e-4, kappa 3e-2). Known finding C03-K: kappa of "
+             "near-Jouguet hybrids is off by several percent at default rtol (Simpson on coarse RK45 steps).",
+        technique="Lean 4 proof over regenerated model + translator validation + independent-integrator monitor", ref="4/C03"),
 }
 
 NOT_YET = "check not built yet in this round (design in DESIGN.md section 4); listed here until its Lean module and harness are committed"
